@@ -738,6 +738,12 @@ fn run_parse(out: &mut Out, d: &[u8]) {
 fn run_bitmap(out: &mut Out, ts: &[u16], ps: &[u16], ctor: &'static str) {
     use domain::rdata::dnssec::RtypeBitmapBuilder;
     let j = |v: &[u16]| if v.is_empty() { "-".to_string() } else { v.iter().map(|x| x.to_string()).collect::<Vec<_>>().join(",") };
+    // the scan constructor needs every type to have a text form that scans back; where the
+    // harness cannot build the case that way it is skipped and counted, not failed
+    let ctor = if ctor == "scan" && !ts.iter().all(|t| {
+        let tok = format!("{}", Rtype::from_int(*t));
+        catch_mut(|| { let mut sc = domain::base::scan::IterScanner::<_, Vec<u8>>::new(vec![tok.clone()]); Rtype::scan(&mut sc).map(|r| r.to_int()).ok() }).ok().flatten() == Some(*t)
+    }) { out.count("scan_not_constructible"); "builder" } else { ctor };
     let case = format!("bm {} {} {}", j(ts), j(ps), ctor);
     out.begin(&case);
     let ts2 = ts.to_vec(); let ps2 = ps.to_vec();
@@ -940,7 +946,9 @@ fn main() {
     for i in 0..n_hash + fixed.len() as u64 {
         let (n, it, salt) = if (i as usize) < fixed.len() { fixed[i as usize].clone() } else {
             let depth = r.below(5);
-            let n: Labels = (0..depth).map(|_| { if r.chance(1, 8) { let k = r.range(1, 63) as usize; r.bytes(k) } else { r.pick(ALPHA).to_vec() } }).collect();
+            let mut n: Labels = (0..depth).map(|_| { if r.chance(1, 8) { let k = r.range(1, 63) as usize; r.bytes(k) } else { r.pick(ALPHA).to_vec() } }).collect();
+            // keep the name (also under the longest apex of the label cases) within 255 octets
+            while wire(&n).len() > 240 { n.pop(); }
             let k = r.below(12) as usize;
             (n, *r.pick(&[0u16, 1, 2, 3, 10, 25, 50]), r.bytes(k))
         };
